@@ -74,7 +74,7 @@ let handle toks =
                 e_fcap = nat_of_int fcap } in
     let s0 = init_state !fs (if limit < 0 then None else Some (nat_of_int limit)) in
     let (s, r) = run env s0 !ops in
-    if s.st_unmod || s.st_overlap then "unmod" else begin
+    if s.st_unmod then "unmod" else begin
       let res = match r with RStatus c -> "s:" ^ string_of_z c | RError -> "e" in
       let files = List.sort compare (List.map (fun (n, b) -> (int_of_z n, b)) s.st_fs) in
       let fss = if files = [] then "-" else
